@@ -225,3 +225,10 @@ package comb
 //@     use binomGeN(l+1, i+1)
 //@     use mulCancel(binom(l+1, i+1), 18446744073709551616, l-i)
 //@     decreases m - b
+
+// prefix form (Rank) and tail form (Unrank) of the colex rank agree; with the two
+// postconditions this gives Rank(Unrank(r, k)) == r.
+//@ lemma sumTail(c []int, t int, k int)
+//@   requires 0 <= t && t <= k
+//@   ensures sumC(c, t) + tailC(c, t, k) == sumC(c, k)
+//@   by induction k - t
